@@ -24,6 +24,7 @@ def run(tier):
         inputs += sweep.inputs_classes(ck, n, 3, 3, rng)
     inputs += sweep.inputs_classes(ck, 5, 2 if quick else 6, 1 if quick else 3, rng)
     inputs += sweep.inputs_classes(ck, 6, 1 if quick else 4, 1 if quick else 3, rng)
+    inputs += sweep.inputs_table_graphs(L)       # every table line's own graph state on its own connectivity
     jobs = sweep.expand_jobs(inputs, ["prep", "readout", "compress"], rng)
     traces, verdicts = sweep.run_jobs(ck, L, jobs, "cost")
     sweep.report(ck, "C04", traces, verdicts, CLAUSES, trivial=lambda t: not any(g[2] >= 0 for g in t["gates"]))
@@ -31,9 +32,11 @@ def run(tier):
     for t, (cl, extra) in zip(traces, verdicts):
         if t["raised"]:
             continue
-        m = re.match(r"^(\d+), (\d+)$", extra or "")
+        m = re.match(r"^(\d+), (\d+), \d+$", extra or "")
         if not m:
             raise core.MachineryError(f"verdict without bookkeeping: {extra!r}")
+        if isinstance(t["rep"], (list, tuple)):
+            continue                     # table-line inputs are judged by their clauses; single-valuedness is tracked per orbit representative
         key = (t["n"], t["conn"], t["rep"])
         val = (int(m.group(1)), int(m.group(2)))
         first = seen.setdefault(key, (val, t))
